@@ -184,6 +184,23 @@ func spinningBlugeGoroutines(dump string) map[string][]string {
 	return rv
 }
 
+// harnessSearchGoroutine reports whether goroutine g of the dump runs a read
+// the harness issued (its stack passes through the harness's read helpers).
+func harnessSearchGoroutine(dump, g string) bool {
+	for _, blk := range strings.Split(dump, "\n\n") {
+		m := goroutineHdr.FindStringSubmatch(blk)
+		if m == nil || m[1] != g {
+			continue
+		}
+		for _, f := range []string{"bsim.(*build).", "bsim.ReadAll", "bsim.ReadExt", "bsim.uidsOf", "bsim.scoredOf", "bsim.extSteps"} {
+			if strings.Contains(blk, f) {
+				return true
+			}
+		}
+	}
+	return false
+}
+
 func startWatchdog() {
 	go func() {
 		last, since := heartbeat.Load(), time.Now()
@@ -229,6 +246,22 @@ func startWatchdog() {
 				}
 			}
 			sort.Strings(spin)
+			// a search issued by the harness itself (reference builds of the
+			// differential check, full reads) is bluge/index code that runs
+			// without blocking too; on a loaded machine a geo or numeric range
+			// query over a large dictionary has taken more than 28 s. Such a
+			// goroutine is given 150 s before it counts as a busy loop.
+			if len(spin) > 0 && time.Since(since) < 150*time.Second {
+				onlyHarnessSearches := true
+				for g := range s1 {
+					if len(s2[g]) > 0 && !harnessSearchGoroutine(d2, g) {
+						onlyHarnessSearches = false
+					}
+				}
+				if onlyHarnessSearches {
+					continue
+				}
+			}
 			if len(spin) > 0 {
 				res.Violation = &Violation{Oracle: "livelock", Msg: fmt.Sprintf("the system did not come to rest for %v of wall clock within one scheduler window (last released: %s); running without ever blocking: %s", time.Since(since).Round(time.Second), r.lastRel, strings.Join(spin, "; ")), Win: r.s.Win}
 			} else {
